@@ -373,7 +373,108 @@ def gen(tier, rng):
             h = zlib.crc32(c.encode())
             if h % 16 == 0 or op in ("min", "max", "minmax", "clamp"):     # (the four small families: every line)
                 extra.append(f"{op}_t{1 + (h >> 8) % 4} {c.split(' ', 1)[1]}")
-    return out + extra
+    return out + extra + nx_cases(quick, rng)
+
+
+# ---- fix-miss round 5: the numeric folds on heterogeneous arithmetic types ("nx_<alg> <tp> <o> ...") -------------------------
+# <tp> -> (element type of range 1, of range 2, type of init, element type of the destination); a token of a floating-point
+# range / init is the value in halves.  Pools are chosen so that no signed overflow and no out-of-range float -> integer
+# conversion happens (undefined behaviour) while every lossy direction occurs: fractions truncated by an int accumulator, ints
+# above 2^24 rounded by a float accumulator, wrap-around of an unsigned char accumulator, promotion of unsigned char operands,
+# 64 -> 32 bit narrowing, float products rounded before they reach a double accumulator.
+NX_TYPES = {0: ("f64", "f64", "i32", "i32"), 1: ("i32", "i32", "f32", "f32"), 2: ("i32", "i32", "u8", "u8"),
+            3: ("i32", "f64", "f64", "f64"), 4: ("f64", "i32", "i32", "f64"), 5: ("u8", "u8", "i32", "i32"),
+            6: ("i64", "i32", "i32", "i32"), 7: ("f32", "f32", "f64", "f64"), 8: ("i32", "i32", "i64", "i64"),
+            9: ("u8", "i32", "u8", "u8"), 10: ("i32", "i32", "f64", "i32")}
+NX_POOL = {0: ((1, 3, 5), (8, 12, 4, 3), (0, 7)), 1: ((16777217, 16777219, 3), (1, 3, 5), (0, 1)),
+           2: ((3, -2, 100, 200), (100, 3, -1), (0, 250)), 3: ((1, 2, 3), (1, 3, 4), (0, 1)),
+           4: ((1, 3, 5), (4, 6, 3), (0, 7)), 5: ((200, 100, 7, 9), (200, 3, 255), (0, -5)),
+           6: ((5000000000, 3, -7), (7, 5, -1), (7, 0)), 7: ((16777215, 3, 5), (16777215, 3, 4), (0, 1)),
+           8: ((46340, 3, -7), (46340, 5, 1), (0, 4294967296)), 9: ((200, 100, 7), (3, -1, 100), (0, 250)),
+           10: ((1, 2, 3), (1, 3, 4), (1, 5))}
+NX_IOTA = {0: (5,), 1: (33554430, 1), 2: (254,), 3: (1,), 4: (-1,), 5: (7,), 6: (-2,), 7: (3,), 8: (2147483647,), 9: (255,), 10: (1, 4)}
+NX_BOUND = {"u8": 255, "i32": 2**31 - 1, "i64": 2**53, "f32": 2**24, "f64": 2**53}
+NX_RANK = ["i32", "i64", "f32", "f64"]
+
+
+def nx_val(ty, tok):
+    from fractions import Fraction
+    return Fraction(tok, 2) if ty in ("f32", "f64") else Fraction(tok)
+
+
+def nx_common(a, b):
+    a = "i32" if a == "u8" else a
+    b = "i32" if b == "u8" else b
+    return NX_RANK[max(NX_RANK.index(a), NX_RANK.index(b))]
+
+
+def nx_dom(tyT, init, terms, term_ty):
+    """[reduce] / [transform.reduce]: GENERALIZED_SUM leaves the grouping (and the type of the partial sums) open - the
+    reference and the spec are consulted only when every grouping gives the same value: at most one term, or only non-negative
+    integers whose total is exactly representable in the type of init and in the type of the terms."""
+    if len(terms) <= 1:
+        return 1
+    vals = [init] + terms
+    if any(v < 0 or v.denominator != 1 for v in vals):
+        return 0
+    return int(sum(vals) <= min(NX_BOUND[tyT], NX_BOUND[term_ty]))
+
+
+def nx_cases(quick, rng):
+    out = []
+    for tp, (e1, e2, tT, tD) in NX_TYPES.items():
+        p1, p2, inits = NX_POOL[tp]
+        lists = [list(x) for n in range(0, 4) for x in itertools.product(p1, repeat=n)]
+        if quick and len(p1) > 3:
+            lists = [l for l in lists if len(l) <= 2] + [l for i, l in enumerate(lists) if len(l) == 3 and i % 2 == 0]
+        for l in lists:
+            v1 = [nx_val(e1, x) for x in l]
+            for init in inits:
+                iv = nx_val(tT, init)
+                for o in (0, 1):
+                    out.append(f"nx_accumulate {tp} {o} {init} {L(l)}")
+                if tp in (0, 2, 3, 4, 5, 9, 10) and len(l) <= 2:
+                    out.append(f"nx_accumulate {tp} 2 {init} {L(l)}")
+                for o in (0, 1, 2):
+                    d = nx_dom(tT, iv, v1, e1) if o != 1 else 0
+                    out.append(f"nx_reduce {tp} {o} {d} {init} {L(l)}")
+                sq_ok = all(abs(x) <= 46340 for x in l) or e1 in ("f32", "f64")   # no signed overflow in x * x
+                if sq_ok:
+                    for o in (0, 1):
+                        d = nx_dom(tT, iv, [x * x for x in v1], nx_common(e1, e1)) if o == 0 else 0
+                        out.append(f"nx_transform_reduce1 {tp} {o} {d} {init} {L(l)}")
+                for k in (0, 1):
+                    l2 = [p2[(i + k + len(l)) % len(p2)] for i in range(len(l) + k)]
+                    v2 = [nx_val(e2, x) for x in l2]
+                    for o in (0, 1, 2):
+                        terms = [a * b for a, b in zip(v1, v2)]
+                        d = nx_dom(tT, iv, terms, nx_common(e1, e2)) if o != 2 else 0
+                        out.append(f"nx_inner_product {tp} {o} {d} {init} {L(l)} {L(l2)}")
+                        out.append(f"nx_transform_reduce {tp} {o} {d} {init} {L(l)} {L(l2)}")
+            out.append(f"nx_reduce {tp} 3 {nx_dom(e1, nx_val(e1, 0), v1, e1)} 0 {L(l)}")
+            for o in (0, 1, 2):
+                out.append(f"nx_partial_sum {tp} {o} {L(l)}")
+                out.append(f"nx_adjacent_difference {tp} {o} {L(l)}")
+        for v in NX_IOTA[tp]:
+            for n in (0, 1, 3, 4):
+                out.append(f"nx_iota {tp} 0 {n} {v}")
+        # longer ranges (libstdc++'s reduce / transform_reduce group four elements at a time from length 4 on)
+        for _ in range(20 if quick else 400):
+            n = rng.randrange(4, 9)
+            small1 = [x for x in p1 if abs(x) < 1000] or [p1[-1]]
+            l = [rng.choice(small1) for _ in range(n)]
+            l2 = [rng.choice(p2) for _ in range(n)]
+            init = rng.choice(inits)
+            v1 = [nx_val(e1, x) for x in l]
+            v2 = [nx_val(e2, x) for x in l2]
+            iv = nx_val(tT, init)
+            out.append(f"nx_accumulate {tp} 0 {init} {L(l)}")
+            out.append(f"nx_reduce {tp} 0 {nx_dom(tT, iv, v1, e1)} {init} {L(l)}")
+            out.append(f"nx_transform_reduce {tp} 0 {nx_dom(tT, iv, [a * b for a, b in zip(v1, v2)], nx_common(e1, e2))} {init} {L(l)} {L(l2)}")
+            out.append(f"nx_inner_product {tp} 0 1 {init} {L(l)} {L(l2)}")
+            out.append(f"nx_partial_sum {tp} 0 {L(l)}")
+            out.append(f"nx_adjacent_difference {tp} 0 {L(l)}")
+    return out
 
 
 def nontrivial(case, impl):
